@@ -88,7 +88,7 @@ func runSolver(ctx context.Context, sc SolverCfg, file string, to int, seed int)
 }
 
 // Discharge decides one obligation. Returns status: discharged | failed(sat) | undecided.
-func (s *Solver) Discharge(ob *Obligation, query string) {
+func (s *Solver) discharge(ob *Obligation, query string, stage int) {
 	text := "(set-logic ALL)\n" + query
 	sum := sha256.Sum256([]byte(text))
 	h := hex.EncodeToString(sum[:])
@@ -156,7 +156,7 @@ func (s *Solver) Discharge(ob *Obligation, query string) {
 		}
 		return
 	}
-	if !s.AllAgree {
+	if stage == 1 {
 		res, out, el := runSolver(ctx, solvers[0], file, s.QuickS, s.Seed)
 		record(res, solvers[0].Name, el)
 		if finish(res, solvers[0].Name, out, el) {
@@ -165,6 +165,7 @@ func (s *Solver) Discharge(ob *Obligation, query string) {
 		if res == "error" {
 			ob.Output += "\n" + out
 		}
+		return // undecided so far: stage 2 will race all solvers
 	}
 	// stage 2: race all solvers
 	type r struct {
@@ -234,7 +235,8 @@ func firstLines(s string, n int) string {
 	return strings.Join(l, " | ")
 }
 
-// DischargeAll runs obligations in parallel (queries are generated sequentially first).
+// DischargeAll runs obligations in two phases: a fast single-solver pass at full parallelism, then the
+// undecided ones raced on all solvers at reduced parallelism (so that solver processes do not starve each other).
 func (s *Solver) DischargeAll(obs []*Obligation, par int) {
 	queries := make([]string, len(obs))
 	for i, ob := range obs {
@@ -254,19 +256,36 @@ func (s *Solver) DischargeAll(obs []*Obligation, par int) {
 			}
 		}
 	}
-	var wg sync.WaitGroup
-	sem := make(chan struct{}, par)
-	for i, ob := range obs {
-		ob, q := ob, queries[i]
-		wg.Add(1)
-		sem <- struct{}{}
-		go func() {
-			defer wg.Done()
-			defer func() { <-sem }()
-			s.Discharge(ob, q)
-		}()
+	run := func(idx []int, par int, stage int) {
+		var wg sync.WaitGroup
+		sem := make(chan struct{}, par)
+		for _, i := range idx {
+			i := i
+			wg.Add(1)
+			sem <- struct{}{}
+			go func() {
+				defer wg.Done()
+				defer func() { <-sem }()
+				s.discharge(obs[i], queries[i], stage)
+			}()
+		}
+		wg.Wait()
 	}
-	wg.Wait()
+	var all, rest []int
+	for i := range obs {
+		all = append(all, i)
+	}
+	if s.AllAgree {
+		run(all, 5, 2)
+		return
+	}
+	run(all, par, 1)
+	for i, ob := range obs {
+		if ob.Status == "" {
+			rest = append(rest, i)
+		}
+	}
+	run(rest, 5, 2)
 }
 
 // splitDischarge proves an obligation path by path (every join above it resolved to one incoming edge).
